@@ -389,3 +389,63 @@ func HC08_nullableWrappers() {
 	vfAssert(line == "Col "+want || strings.HasPrefix(line, "Col "+want+" "), "C08/nullable-wrapper-column-has-the-sql-type-of-its-data")
 	vfAssert(!strings.Contains(line, "NOT NULL"), "C08/not-null-unless-nullable-wrapper-or-variable-length-array")
 }
+
+// HC08_primaryPosition: the id field is the serial primary key wherever it stands among exported,
+// unexported and unexported-guard fields; every other column keeps its place and its type.
+func HC08_primaryPosition() {
+	pkg := skelPkg()
+	n := 2 + vfChoice("fields", 3)
+	idAt := vfChoice("idAt", n)
+	idName := []string{"Id", "ID", "id"}[vfChoice("idName", 3)]
+	var fields []skelField
+	var want []string // the expected column definitions, in order
+	for i := 0; i < n; i++ {
+		if i == idAt {
+			fields = append(fields, skelField{name: idName, typ: &an.Basic{B: types.Typ[types.Int64]}})
+			if idName != "id" {
+				want = append(want, idName+" serial PRIMARY KEY")
+			}
+			continue
+		}
+		kind := vfChoice(fmt.Sprint("kind", i), 4) // exported int, exported string, unexported, unexported guard
+		switch kind {
+		case 0:
+			fields = append(fields, skelField{name: fmt.Sprint("F", i), typ: an.Int})
+			want = append(want, fmt.Sprint("F", i, " integer NOT NULL"))
+		case 1:
+			fields = append(fields, skelField{name: fmt.Sprint("F", i), typ: an.String})
+			want = append(want, fmt.Sprint("F", i, " text NOT NULL"))
+		case 2:
+			fields = append(fields, skelField{name: fmt.Sprint("f", i), typ: an.Int})
+		default:
+			fields = append(fields, skelField{name: fmt.Sprint("g", i), typ: an.Int, extra: ` gomacro-sql-guard:"7"`})
+			want = append(want, fmt.Sprint("g", i, " integer NOT NULL"))
+		}
+	}
+	st := skelStruct(pkg, skelNamed(pkg, "Item", types.NewStruct(nil, nil)), fields)
+	var decls []gen.Declaration
+	panicked, _, msg := vfCatch(func() { decls = generateTable(sql.NewTable(st)) })
+	vfObserve("outcome", msg)
+	vfAssert(!panicked, "C08/table-generation-completes")
+	if panicked {
+		return
+	}
+	create := decls[len(decls)-1].Content
+	open := strings.Index(create, "(\n")
+	body := create[open+2:]
+	body = body[:strings.LastIndex(body, ");")]
+	var lines []string
+	for _, l := range strings.Split(strings.TrimRight(body, "\n\t "), ",\n") {
+		if l = strings.TrimSpace(l); l != "" {
+			lines = append(lines, l)
+		}
+	}
+	vfObserve("columns", lines)
+	ok := len(lines) == len(want)
+	if ok {
+		for i := range want {
+			ok = ok && (lines[i] == want[i] || strings.HasPrefix(lines[i], want[i]+" "))
+		}
+	}
+	vfAssert(ok, "C08/id-field-is-the-serial-primary-key-and-the-other-columns-keep-their-place")
+}
